@@ -110,7 +110,8 @@ Apply(o) ==
     /\ prog' = Append(prog, o.name)
     /\ trail' = Append(trail, val')
     /\ UNCHANGED init
-Step == /\ init # NoInit /\ Len(prog) < MaxLen
+\* (programs are not continued on an EMPTY typed batch: what operations on zero images return is not part of the property)
+Step == /\ init # NoInit /\ Len(prog) < MaxLen /\ (val.t = "Plain" \/ Len(val.d) > 0)
         /\ \E o \in OpsFor(Meaning(val).layout) : Apply(o)
 Next == Start \/ Step
 Spec == Init /\ [][Next]_vars
